@@ -206,3 +206,16 @@ for _pid, _extra in {
  'C17': 'Round 4: the put writers store the widened array they write into (shared with C03).',
 }.items():
     ADDENDA[_pid] = (ADDENDA.get(_pid, '') + ' ' + _extra).strip()
+
+
+# --- rounds 5-6 (robustness against behaviour-preserving refactorings) and rule changes made there ------------------------------------------------
+for _pid, _extra in {
+ 'C05': 'Round 6: the constructor check may compare the local objects that are stored (self._values = values); who-may-write scan follows helper parameters that are only ever handed the Dataset; '
+        'the JSON writer guards its json.dumps probe entry by entry (a try around the whole loop drops the entries after the first failing one; shared with C19).',
+ 'C06': 'Round 6: the per-dimension collection is read in _get_aligned_axes or, when that helper was merged away, in align() itself.',
+ 'C08': 'Round 6: _deal_with_axis judged per kind of axis argument (tuple / list / int / str scenarios); an unclassifiable _get_func result or fill value is ANALYSIS-ERROR, not a violation.',
+ 'C13': 'Round 6: dict-level writers are recognised through local aliases of super(Dataset, ds).',
+ 'C17': 'Round 6: _isnan decided per scenario of `na` (NaN -> np.isnan(a), otherwise a == na) whatever the spelling.',
+ 'C19': 'Round 6: the writer table follows aliases of the meta dictionary; the json.dumps probe must sit in a try inside the per-entry loop; a reader path without a meta entry may return early.',
+}.items():
+    ADDENDA[_pid] = (ADDENDA.get(_pid, '') + ' ' + _extra).strip()
